@@ -5,6 +5,10 @@ HERE = os.path.dirname(os.path.dirname(os.path.abspath(__file__)))
 props = [json.loads(l) for l in open(os.path.join(HERE, "properties.jsonl"))]
 
 CHECKS = {
+ "C05": dict(
+   text="Independence is a statement about the shared automaton: theorems (Proofs/ACProofs.v) show that for every image passing the decidable certificate ac_cert the scan loop of scanner.c, at every position of every buffer, walks exactly the matches owned by the states whose path is a suffix of the input (run_is_longest_suffix, ac_reports_all_and_only), hence every occurrence of every atom of a string - and with the coverage certificate every occurrence of the string - reaches the verifier whatever other rules share states, prefixes, suffixes, failure links and match lists (occurrences_verified_in_any_company); adding atoms never removes a candidate. Tie: ac_cert is evaluated by the extracted model on the transition/match tables decoded from the saved image of COMBINED rule sets; a target rule is run alone vs appended to / permuted with / split over namespaces, add calls and include files with 1-4 related rules (shared atoms, prefixes, suffixes, regex, private rules, imports) on 4 buffers each.",
+   note="Trusted: Coq kernel, extraction, image decoder model (validated by the scan correspondence of C01), harness. Not proved: independence at lexer/parser level (source splitting, includes) and of condition bytecode / rule and namespace indexes - metamorphic runs only.",
+   technique="Coq proof of Aho-Corasick table correctness under a per-image certificate + metamorphic alone-vs-company runs", ref="DESIGN.md 4 C05"),
  "C11": dict(
    text="For all import lists, rule lists (any mix of global/private/disabled rules over any namespaces), flag words and callback scripts (nat->answer), the Gallina model of set_flags + module loading + OP_INIT_RULE/OP_MATCH_RULE bitmaps + the report loop of scanner.c delivers exactly the declarative message list `modules ++ expected ++ [finished]` cut right after the first stopping answer (protocol_is_cut_of_full_list); each_nonprivate_once_in_order, private_never, finished_last_iff_not_aborted, matching_iff_cond_and_globals, import_pair_once_per_module, abort_stops_with_success, error_stops_with_callback_error, module_error_fails_scan are corollaries. Tie: traces, return codes and the rule_matches_flags/ns_unsatisfied_flags bitmaps of the real library are compared with the extracted model for generated rule sets (exhaustive <= 2 rules, random with imports/disabled rules/rule references) x all 4 flag settings x abort/error at every message index.",
    note="Trusted: Coq kernel, extraction, harness h_proto. Not modelled: console.log, TOO_MANY_MATCHES / TOO_SLOW_SCANNING messages, module load failures, timeouts. The library ignores CALLBACK_ABORT in response to module messages; the model says so and the property does not claim otherwise.",
@@ -19,7 +23,7 @@ CHECKS = {
    technique="Coq proof over source-generated opcode/precedence models + evaluator-vs-implementation correspondence", ref="DESIGN.md 4 C04"),
  "C01": dict(
    text="Spec/TextSpec.v is the documented semantics of text strings (ascii, wide, nocase, fullword, xor ranges). Theorems: the executable reference reports every offset once, in ascending order, exactly where the string occurs (text_matches_exact, all strings, modifiers and buffers); for ANY atom set that passes the coverage certificate every occurrence in every buffer is proposed to the verifier by an atom hit (candidates_complete: 'whichever substring the engine picks'). Tie: the certificate cover_ok is evaluated by the extracted model on the atoms decoded from the saved image of every generated rule (Model/Image.v decodes strings, transition table, match lists), and the real scanner's match lists are compared with the extracted reference on generated strings x buffers (planted variants at 0/end/overlapping, near misses, alnum/NUL neighbours, keys outside the range).",
-   note="Trusted: Coq kernel, extraction, C harness h_scan, layout/constants/character-table translators. Not proved (correspondence only): the verifier accepts exactly the occurrences among the candidates; the stored automaton reports exactly the atom hits. base64/base64wide strings are not covered yet.",
+   note="Trusted: Coq kernel, extraction, C harness h_scan, layout/constants/character-table translators. The stored automaton is proved to report exactly the atom occurrences under the per-image certificate ac_cert (ac_reports_all_and_only, atom_hits_reach_verifier). Not proved (correspondence only): the verifier (compare functions of scan.c) accepts exactly the occurrences among the candidates. base64/base64wide strings are not covered yet.",
    technique="Coq proof (spec + atom-coverage certificate) + image decoding + scan correspondence", ref="DESIGN.md 4 C01"),
  "C17": dict(
    text="Theorems over the Gallina model of yr_arena_save_stream / yr_arena_load_stream / yr_rules_load_stream: every strict prefix of every well-formed saved image is rejected (truncated_rejected: all arenas, all cut points), the full image round-trips, accepted files have the right magic/version/section count. Tie: the extracted model and the real loader run on every prefix of generated images, all single-field header/table corruptions and malformed files (exact rc and re-saved bytes compared), and wf_arena is checked on every image the real compiler writes.",
